@@ -15,7 +15,10 @@ int ar_get(void);
 int ar_empty(void);
 }
 
-const char *H_NAME = "ringconc";
+#ifndef H_SUFFIX
+#define H_SUFFIX ""
+#endif
+const char *H_NAME = "ringconc" H_SUFFIX; // "_fb" = built with the __STDC_NO_ATOMICS__ fallback of atomic.h
 
 namespace {
 struct Put {
